@@ -158,6 +158,124 @@ func firstStringArg(fn *ast.FuncDecl, callee string) string {
 	return res
 }
 
+// ---- C17: accesses to process-wide maps and the lock held at each --------------------------------------
+
+type watched struct{ file, expr, lock string }
+
+// exprText renders identifiers and selector chains ("f.mutex", "lastUpdatedCache"); anything else is "".
+func exprText(e ast.Expr) string {
+	switch t := e.(type) {
+	case *ast.Ident:
+		return t.Name
+	case *ast.SelectorExpr:
+		if x := exprText(t.X); x != "" {
+			return x + "." + t.Sel.Name
+		}
+	}
+	return ""
+}
+
+type access struct{ Map, Func, Kind, Lock string }
+
+// scanAccesses walks one function body in source order (function literals are scanned on their own, with a fresh
+// lock state), tracking `<lock>.Lock/RLock/Unlock/RUnlock()` calls and recording every use of the watched expression.
+func scanAccesses(fname string, body *ast.BlockStmt, w watched, out *[]access) {
+	state := "none"
+	var lits []*ast.FuncLit
+	writes := map[ast.Node]bool{}
+	// first pass: mark the nodes that are written through
+	ast.Inspect(body, func(n ast.Node) bool {
+		switch t := n.(type) {
+		case *ast.AssignStmt:
+			for _, l := range t.Lhs {
+				if ix, ok := l.(*ast.IndexExpr); ok && exprText(ix.X) == w.expr {
+					writes[ix.X] = true
+				}
+				if exprText(l) == w.expr {
+					writes[l] = true
+				}
+			}
+		case *ast.CallExpr:
+			if id, ok := t.Fun.(*ast.Ident); ok && id.Name == "delete" && len(t.Args) > 0 && exprText(t.Args[0]) == w.expr {
+				writes[t.Args[0]] = true
+			}
+			if sel, ok := t.Fun.(*ast.SelectorExpr); ok && exprText(sel.X) == w.expr && sel.Sel.Name == "Set" {
+				writes[sel.X] = true
+			}
+		}
+		return true
+	})
+	var walk func(n ast.Node) bool
+	walk = func(n ast.Node) bool {
+		switch t := n.(type) {
+		case *ast.FuncLit:
+			lits = append(lits, t)
+			return false
+		case *ast.DeferStmt:
+			// a deferred unlock keeps the lock until the function returns
+			if sel, ok := t.Call.Fun.(*ast.SelectorExpr); ok && exprText(sel.X) == w.lock {
+				return false
+			}
+		case *ast.CallExpr:
+			if sel, ok := t.Fun.(*ast.SelectorExpr); ok && exprText(sel.X) == w.lock {
+				switch sel.Sel.Name {
+				case "Lock":
+					state = "w"
+				case "RLock":
+					state = "r"
+				case "Unlock", "RUnlock":
+					state = "none"
+				}
+				return false
+			}
+		case *ast.SelectorExpr, *ast.Ident:
+			if exprText(t.(ast.Expr)) == w.expr {
+				kind := "read"
+				if writes[n] {
+					kind = "write"
+				}
+				*out = append(*out, access{w.expr, fname, kind, state})
+				return false
+			}
+		case *ast.KeyValueExpr:
+			// a composite-literal key is a field name, not an access
+			ast.Inspect(t.Value, walk)
+			return false
+		}
+		return true
+	}
+	ast.Inspect(body, walk)
+	for i, l := range lits {
+		scanAccesses(fmt.Sprintf("%s.func%d", fname, i+1), l.Body, w, out)
+	}
+}
+
+func accessFacts(repo string) []access {
+	ws := []watched{
+		{"pkg/controller/common/manage_children.go", "lastUpdatedCache", "cacheLock"},
+		{"pkg/dynamic/informer/factory.go", "f.refCount", "f.mutex"},
+		{"pkg/dynamic/informer/factory.go", "f.sharedInformers", "f.mutex"},
+		{"pkg/dynamic/informer/informer.go", "seh.handlers", "seh.mutex"},
+		{"pkg/controller/common/customize/manager.go", "rm.relatedInformers", "rm.relatedInformersLock"},
+	}
+	var out []access
+	for _, w := range ws {
+		f := parse(repo, w.file)
+		for _, d := range f.Decls {
+			fd, ok := d.(*ast.FuncDecl)
+			if !ok || fd.Body == nil {
+				continue
+			}
+			// constructors build the value before it is shared
+			if strings.HasPrefix(fd.Name.Name, "New") || strings.HasPrefix(fd.Name.Name, "new") {
+				continue
+			}
+			scanAccesses(fd.Name.Name, fd.Body, w, &out)
+		}
+	}
+	return out
+}
+
 func main() {
 	repo := "/repo"
 	if len(os.Args) > 1 {
@@ -194,6 +312,14 @@ func main() {
 		"SyncObject": true, "getChildren": true, "GetRelatedObjects": true, "callHook": true,
 		"UpdateStatus": true, "Update": true, "ManageChildren": true})
 	w("def decoratorSyncOrder : List String := %s\n", leanList(order3))
+	// C17: (shared map, function, read|write, lock held: none|r|w)
+	var facts []string
+	for _, a := range accessFacts(repo) {
+		lock := map[string]int{"none": 0, "r": 1, "w": 2}[a.Lock]
+		facts = append(facts, fmt.Sprintf("(%s, %s, %v, %d)", leanStr(a.Map), leanStr(a.Func), a.Kind == "write", lock))
+	}
+	// (shared map, function, is a write, lock held: 0 none / 1 read lock / 2 exclusive lock)
+	w("def sharedMapAccesses : List (String × String × Bool × Nat) := [%s]\n", strings.Join(facts, ", "))
 	w("end Mc.Generated\n")
 	fmt.Print(b.String())
 }
